@@ -227,6 +227,45 @@ impl TimedCache {
         }
     }
 
+    /// Put an item which was just read from storage into the cache, unless the cache already
+    /// holds a live entry for the same key. A live entry can only have been put there after
+    /// the storage read was issued (otherwise the read would have been a cache hit), i.e. by a
+    /// write which is at least as recent as what the read returned, so it must not be
+    /// overwritten by the (possibly older) result of the read.
+    pub async fn fill(&self, record: &DbRecord) {
+        self.batch_fill(std::slice::from_ref(record)).await
+    }
+
+    /// Batched version of [TimedCache::fill].
+    pub async fn batch_fill(&self, records: &[DbRecord]) {
+        self.clean().await;
+
+        for record in records.iter() {
+            if let DbRecord::Azks(azks_ref) = &record {
+                let mut azks_guard = self.azks.write().await;
+                if azks_guard.is_none() {
+                    *azks_guard = Some(DbRecord::Azks(azks_ref.clone()));
+                }
+            } else {
+                let now = Instant::now();
+                let item = CachedItem {
+                    expiration: now + self.item_lifetime,
+                    data: record.clone(),
+                };
+                match self.map.entry(record.get_full_binary_id()) {
+                    dashmap::mapref::entry::Entry::Occupied(mut entry) => {
+                        if entry.get().expiration <= now {
+                            entry.insert(item);
+                        }
+                    }
+                    dashmap::mapref::entry::Entry::Vacant(entry) => {
+                        entry.insert(item);
+                    }
+                }
+            }
+        }
+    }
+
     /// Flush the cache.
     pub async fn flush(&self) {
         self.map.clear();
